@@ -83,7 +83,7 @@ Definition item_price (it : item) (cur : Z) (c : nat) (rates : list xrate) : opt
   end.
 
 (* ---------------- sub-lines and lines ---------------- *)
-Record sub_calc := mkSubCalc { sc_price : amount; sc_sum : amount; sc_total : amount }.
+Record sub_calc := mkSubCalc { sc_price : amount; sc_sum : amount; sc_total : amount; sc_ds : list amount; sc_cs : list amount }.
 
 Definition calc_sub (cr : bool) (c : nat) (cur : Z) (rates : list xrate) (sl : subline) : option sub_calc :=
   match item_price (sl_item sl) cur c rates with
@@ -93,7 +93,7 @@ Definition calc_sub (cr : bool) (c : nat) (cur : Z) (rates : list xrate) (sl : s
     let sum := apply_rr cr c (mul price (sl_qty sl)) in
     let ds := ldc_amounts cr c sum (sl_qty sl) false (sl_discounts sl) in
     let cs := ldc_amounts cr c sum (sl_qty sl) true (sl_charges sl) in
-    Some (mkSubCalc sp sum (add_all (sub_all sum ds) cs))
+    Some (mkSubCalc sp sum (add_all (sub_all sum ds) cs) ds cs)
   end.
 
 Fixpoint calc_subs cr c cur rates (sls : list subline) : option (list sub_calc) :=
